@@ -1355,6 +1355,23 @@ def check(ctx: Ctx):
     check_volume_3d(ctx)
     check_volume_approx(ctx)
     check_size_reads_shape(ctx)
+    # one-shot iterators over the modes are consumed once (an emptiness test with any() eats the first non-zero mode), and the angles
+    # are used as given (a range reduction θ mod π maps the south pole onto the north pole)
+    from ..rules import iteronce as _iteronce
+
+    for cn_ in CLASSES + ["PerturbedDropletBase"]:
+        ci_ = m.cls(cn_)
+        for nm_, lst_ in ci_.methods.items():
+            for fi_ in lst_:
+                if fi_.cls is ci_:
+                    _iteronce.check_local_iterators(ctx, fi_)
+                    if nm_ in ("interface_distance", "interface_curvature", "interface_position"):
+                        red_ = [st_ for st_ in ast.walk(fi_.node) if isinstance(st_, ast.Assign) and len(st_.targets) == 1 and isinstance(st_.targets[0], ast.Name)
+                                and st_.targets[0].id in fi_.params[1:] and ((isinstance(st_.value, ast.Call) and U(st_.value.func).split(".")[-1] in ("mod", "remainder", "fmod", "clip", "abs", "absolute"))
+                                                                          or (isinstance(st_.value, ast.BinOp) and isinstance(st_.value.op, ast.Mod)))]
+                        ctx.decide(not red_, "ORIGIN", f"{fi_.qualname}:angles-as-given", (fi_, red_[0]) if red_ else fi_, "the angles are used as given",
+                                   f"`{U(red_[0])[:60] if red_ else ''}` reduces an angle before the shape is evaluated: the real harmonics are not periodic in the polar angle with period π "
+                                   "(θ = π is mapped to 0, so the south pole gets the north pole's distance and one triangulation vertex leaves the interface)")
     from ..rules import purity as _purity
 
     _purity.check_stateless(ctx, [f"droplets.droplets.{c}.{meth}" for c in CLASSES + ["PerturbedDropletBase"] for meth in
@@ -1374,7 +1391,7 @@ def check(ctx: Ctx):
     ctx.expect("SHAPE", 8)
     ctx.expect("TRIANG", 3)
     ctx.expect("ACCUM", 7)
-    ctx.expect("ORIGIN", 8)
+    ctx.expect("ORIGIN", 19)
     ctx.expect("GUARD", 7)
     ctx.expect("COEFF", 16)
     ctx.expect("DIM", 12)
